@@ -39,12 +39,27 @@ func (eng *Engine) configure() {
 				panic("stable: unknown component " + st)
 			}
 		}
-		for comp, mu := range ps.Guarded {
-			if c, ok := eng.ld.compByShort(tmp, comp); ok {
-				eng.guarded[c] = mu
-			} else {
+		var gcomps []string
+		for comp := range ps.Guarded {
+			gcomps = append(gcomps, comp)
+		}
+		sort.Strings(gcomps)
+		for _, comp := range gcomps {
+			rule := ps.Guarded[comp]
+			c, ok := eng.ld.compByShort(tmp, comp)
+			if !ok {
 				panic("guarded_by: unknown component " + comp)
 			}
+			mc, ok := eng.ld.compByShort(tmp, rule.Mutex)
+			if !ok {
+				panic("guarded_by: unknown mutex " + rule.Mutex)
+			}
+			label := rule.Label
+			if label == "" {
+				label = "guarded"
+			}
+			eng.guarded[c] = &guardInfo{comp: c, short: comp, mutexComp: mc, rule: rule,
+				clause: &Clause{Kind: KRequires, Label: label + "." + comp, Tags: rule.Tags, File: rule.File, Line: rule.Line, Text: "held(" + rule.Mutex + ") at every access of " + comp}}
 		}
 	}
 }
